@@ -719,7 +719,7 @@ Fixpoint closed_expr (self : ident -> bool) (params : list ident) (e : expr) : b
   | ELit v => negb (has_function v)
   | EVar x => mem_ident x params
   | ECall (EVar x) args =>
-      self x && negb (mem_ident x params)
+      self x && negb (mem_ident x params) && negb (bytes_eqb x info_name)
       && (fix all (l : list expr) : bool := match l with [] => true | a :: l' => closed_expr self params a && all l' end) args
   | EArr es | EPrint es =>
       (fix all (l : list expr) : bool := match l with [] => true | a :: l' => closed_expr self params a && all l' end) es
